@@ -30,7 +30,7 @@ typedef struct pair0_sock pair0_sock;
 static void pair0_pipe_send_cb(void *);
 static void pair0_pipe_recv_cb(void *);
 static void pair0_pipe_fini(void *);
-static void pair0_send_sched(pair0_sock *);
+static void pair0_send_sched(pair0_sock *, pair0_pipe *);
 static void pair0_pipe_send(pair0_pipe *, nni_msg *);
 
 // pair0_sock is our per-socket protocol private structure.
@@ -181,7 +181,7 @@ pair0_pipe_start(void *arg)
 	s->rd_ready = false;
 	nni_mtx_unlock(&s->mtx);
 
-	pair0_send_sched(s);
+	pair0_send_sched(s, p);
 
 	// And the pipe read of course.
 	nni_pipe_recv(p->pipe, &p->aio_recv);
@@ -217,6 +217,15 @@ pair0_pipe_recv_cb(void *arg)
 
 	nni_mtx_lock(&s->mtx);
 
+	// A receive completion can race with pipe_stop; a detached pipe
+	// must not mark the socket ready on behalf of its successor.
+	if (s->p != p) {
+		nni_mtx_unlock(&s->mtx);
+		nni_aio_set_msg(&p->aio_recv, NULL);
+		nni_msg_free(msg);
+		return;
+	}
+
 	// if anyone is blocking, then the lmq will be empty, and
 	// we should deliver it there.
 	if ((a = nni_list_first(&s->raq)) != NULL) {
@@ -241,16 +250,17 @@ pair0_pipe_recv_cb(void *arg)
 }
 
 static void
-pair0_send_sched(pair0_sock *s)
+pair0_send_sched(pair0_sock *s, pair0_pipe *p)
 {
-	pair0_pipe *p;
 	nni_msg    *m;
 	nni_aio    *a = NULL;
 	size_t      l = 0;
 
 	nni_mtx_lock(&s->mtx);
 
-	if ((p = s->p) == NULL) {
+	// A send completion can race with pipe_stop; it must not schedule
+	// a send on behalf of a pipe that is no longer the attached one.
+	if (s->p != p) {
 		nni_mtx_unlock(&s->mtx);
 		return;
 	}
@@ -303,7 +313,7 @@ pair0_pipe_send_cb(void *arg)
 		return;
 	}
 
-	pair0_send_sched(p->pair);
+	pair0_send_sched(p->pair, p);
 }
 
 static void
